@@ -12,7 +12,8 @@ PROP = {'areas': [{'area': 'engine',
             'only_prop': 'C08',
             'quick': 12000,
             'thorough': 2000000,
-            'tie_fields': ['nst', 'out', 'pwc', 'cur', 'hq', 'uq', 'rq', 'tmo', 'pingto', 'nping', 'connackto', 'st']}],
+            'tie_fields': ['nst', 'out', 'pwc', 'cur', 'hq', 'uq', 'rq', 'tmo', 'pingto', 'nping', 'connackto', 'st']},
+           {'area': 'c14r', 'corpus': [], 'only_sig': '^C(14|18):real:', 'quick': 32, 'thorough': 320, 'tie_sig': '^c14r-harness'}],
  'coq_target': 'Properties/C08.vo',
  'modelled': 'protocol.rs ProtocolState: handle_user_event, handle_network_event (opened / closed / incoming data / write completion), service '
              '(pending-connack / connected / pending-disconnect), get_next_service_timepoint, reset and every helper they call (operation table, three intake '
@@ -31,7 +32,8 @@ PROP = {'areas': [{'area': 'engine',
          'response (outcome, state, completions, packet events, bytes, next service time, full bookkeeping snapshot) is compared (kind=tie, with the set of '
          "diverging fields); the extracted monitors of Engine/Monitors.v judge the IMPLEMENTATION's observation (kind=property, with the first observation at "
          'which the monitor turns false and the script that reproduces it). distinct = distinct command scripts; non-trivial = reached at least one '
-         'interesting predicate (x_interesting_predicates_reached)'}
+         'interesting predicate (x_interesting_predicates_reached) || REAL DRIVERS, REAL TIME: area c14r (all families): the drivers service the engine at the '
+         'times it reports (pings go out, keep-alive failures and ack timeouts happen).'}
 
 META = {'design_ref': 'DESIGN.md section 7 / C08',
  'level_note': 'Trusted: Coq kernel; the tie (facade engine.rs, harness, OCaml driver incl. the generator); the reference codec used by the simulated broker '
@@ -48,6 +50,8 @@ META = {'design_ref': 'DESIGN.md section 7 / C08',
                'only at reported times, with monitors mon_c08_wakeup and mon_c08_spin — partial. Monitors on the implementation trace: mon_c08_wakeup (work '
                'that can be sent now -> service time now), mon_c08_spin (no service-me-now that changes nothing), mon_c08_timers (the reported time is never '
                'later than the CONNACK deadline, the PINGRESP deadline, the next ping time, or w + T of any incomplete operation completely written at w with '
-               'ack timeout T).',
+               "ack timeout T). That the DRIVERS turn the engine's reported service times into calls is sampled in real time on the real tokio / threaded "
+               'clients (area c14r: keep-alive 1 s with an answering / a silent broker, QoS 1 publish with an ack timeout against a broker that never '
+               'acknowledges; generous margins, inconclusive runs discarded).',
  'technique': 'machine-checked proof in Coq over the engine model + lock-step correspondence of the extracted model with the implementation + extracted '
               'monitors on the implementation trace'}
